@@ -83,7 +83,13 @@ fn tamper_hash(p: &mut Prng, w: &mut World, slot: &str, kind: &str) {
 fn session(p: &mut Prng, w: &mut World, pfx: &str, plan: &Plan, scripted: Option<(&str, &str, &str, &str)>) {
     let s = |x: &str| format!("{pfx}.{x}");
     let n = n_sm2();
-    let klen = if scripted.is_some() { 16 } else { p.range(1, 200) };
+    let klen = if scripted.is_some() {
+        16
+    } else if p.chance(1, 3) {
+        *p.pick(&[1usize, 16, 31, 32, 33, 64, 65, 96, 128, 160, 192])
+    } else {
+        p.range(1, 200)
+    };
     let (da, db) = match scripted {
         Some((da, db, _, _)) => (rsm2::hx(da), rsm2::hx(db)),
         None => (scalar_class(p, &n).0, scalar_class(p, &n).0),
@@ -114,46 +120,53 @@ fn session(p: &mut Prng, w: &mut World, pfx: &str, plan: &Plan, scripted: Option
             None => rng_json(&uniform_script(p, 1)),
         }
     };
-    // A1-A3
-    let r1 = w.exec(json!({"op":"sm2.kex.1","obj":oa,"out":s("m1.ra"),"rng":script(p, scripted.map(|x| x.2))}));
-    let mut alive = class_of(&r1) == "Ok";
-    let mut via_ra = plan.via_ra;
-    if alive && plan.tamper & 1 != 0 {
-        if let Some(v) = tamper_point(p, w, &s("m1.ra"), plan.kind) {
-            via_ra = v;
+    // history: on some honest runs the same two Exchange objects run the protocol a second time
+    let rounds = if scripted.is_none() && plan.tamper == 0 && p.chance(1, 4) { 2 } else { 1 };
+    for round in 0..rounds {
+        if round == 1 {
+            w.bump("history.second-run-on-same-objects");
         }
-    }
-    // B1-B9
-    if alive {
-        let r2 = w.exec(json!({"op":"sm2.kex.2","obj":ob,"ra":s("m1.ra"),"ra_via":via_ra,"out_rb":s("m2.rb"),"out_sb":s("m2.sb"),"rng":script(p, scripted.map(|x| x.3))}));
-        alive = class_of(&r2) == "Ok";
-    }
-    if alive {
-        w.exec(json!({"op":"copy","from":s("m1.ra"),"to":s("b.store.ra")}));
-        let mut via_rb = plan.via_rb;
-        if plan.tamper & 2 != 0 {
-            if let Some(v) = tamper_point(p, w, &s("m2.rb"), plan.kind) {
-                via_rb = v;
+    // A1-A3
+        let r1 = w.exec(json!({"op":"sm2.kex.1","obj":oa,"out":s("m1.ra"),"rng":script(p, scripted.map(|x| x.2))}));
+        let mut alive = class_of(&r1) == "Ok";
+        let mut via_ra = plan.via_ra;
+        if alive && plan.tamper & 1 != 0 {
+            if let Some(v) = tamper_point(p, w, &s("m1.ra"), plan.kind) {
+                via_ra = v;
             }
         }
-        if plan.tamper & 4 != 0 {
-            tamper_hash(p, w, &s("m2.sb"), plan.kind);
+        // B1-B9
+        if alive {
+            let r2 = w.exec(json!({"op":"sm2.kex.2","obj":ob,"ra":s("m1.ra"),"ra_via":via_ra,"out_rb":s("m2.rb"),"out_sb":s("m2.sb"),"rng":script(p, scripted.map(|x| x.3))}));
+            alive = class_of(&r2) == "Ok";
         }
-        // A4-A10
-        let r3 = w.exec(json!({"op":"sm2.kex.3","obj":oa,"rb":s("m2.rb"),"rb_via":via_rb,"sb":s("m2.sb"),"out_sa":s("m3.sa")}));
-        alive = class_of(&r3) == "Ok";
+        if alive {
+            w.exec(json!({"op":"copy","from":s("m1.ra"),"to":s("b.store.ra")}));
+            let mut via_rb = plan.via_rb;
+            if plan.tamper & 2 != 0 {
+                if let Some(v) = tamper_point(p, w, &s("m2.rb"), plan.kind) {
+                    via_rb = v;
+                }
+            }
+            if plan.tamper & 4 != 0 {
+                tamper_hash(p, w, &s("m2.sb"), plan.kind);
+            }
+            // A4-A10
+            let r3 = w.exec(json!({"op":"sm2.kex.3","obj":oa,"rb":s("m2.rb"),"rb_via":via_rb,"sb":s("m2.sb"),"out_sa":s("m3.sa")}));
+            alive = class_of(&r3) == "Ok";
+        }
+        if alive {
+            if plan.tamper & 8 != 0 {
+                tamper_hash(p, w, &s("m3.sa"), plan.kind);
+            }
+            if plan.tamper & 16 != 0 {
+                tamper_point(p, w, &s("b.store.ra"), plan.kind);
+            }
+            // B10
+            w.exec(json!({"op":"sm2.kex.4","obj":ob,"sa":s("m3.sa"),"ra":s("b.store.ra"),"ra_via":"struct"}));
+        }
+        w.exec(json!({"op":"sm2.kex.end","a":oa,"b":ob}));
     }
-    if alive {
-        if plan.tamper & 8 != 0 {
-            tamper_hash(p, w, &s("m3.sa"), plan.kind);
-        }
-        if plan.tamper & 16 != 0 {
-            tamper_point(p, w, &s("b.store.ra"), plan.kind);
-        }
-        // B10
-        w.exec(json!({"op":"sm2.kex.4","obj":ob,"sa":s("m3.sa"),"ra":s("b.store.ra"),"ra_via":"struct"}));
-    }
-    w.exec(json!({"op":"sm2.kex.end","a":oa,"b":ob}));
 }
 
 fn impls(p: &mut Prng) -> (&'static str, &'static str) {
